@@ -94,11 +94,17 @@ func (iter *MapIter) RunOperation(opType op.BinaryOpType, right Object) Object {
 
 func (iter *MapIter) Next(ctx context.Context) (Object, bool) {
 	keys := iter.keys
-	if iter.pos >= int64(len(keys)-1) {
-		iter.current = nil
-		return nil, false
+	for {
+		if iter.pos >= int64(len(keys)-1) {
+			iter.current = nil
+			return nil, false
+		}
+		iter.pos++
+		// A key that was deleted since the iteration began is not produced
+		if _, ok := iter.m.items[keys[iter.pos]]; ok {
+			break
+		}
 	}
-	iter.pos++
 	iter.current = NewString(keys[iter.pos])
 	return iter.current, true
 }
